@@ -37,6 +37,10 @@ type (
 		File string
 		Line int
 		Text string
+
+		// imp numbers the import expansion (of a file or a snippet)
+		// that produced this token; 0 for tokens of the input itself.
+		imp int
 	}
 )
 
